@@ -148,6 +148,67 @@ def build(seed):
     return text, plist, names
 
 
+# unit programs: every binary operator x ordered operand-type pair (and the unary operators) over boundary values held in
+# variables - the debugger's evaluator and the code generator each carry their own copy of the operand-type rules
+UNIT_POOL = {'%': [3, -7, 255, 32767, -32768], '&': [70000, -70000, 16777217, 2147483647, 33554433],
+             '!': [0.5, 2.5, 16777216.0, 0.1, -1.5, 33554432.0], '#': [0.5, 2.5, 16777217.0, 0.1, 123456789.125, -2.5],
+             '$': ['', 'a', 'ab', 'B', 'a ']}
+UNIT_SMALL = {'%': [3, -7, 100], '&': [70000, -70000, 40000], '!': [0.5, 2.5, -1.5, 0.1], '#': [0.5, 2.5, 0.1, -2.5]}
+UNIT_DIV = {'%': [3, -7], '&': [70000, -3], '!': [2.5, -1.5], '#': [2.5, -2.5]}
+UNIT_OPS = ['+', '-', '*', '/', '\\', 'MOD', '=', '<>', '<', '>', '<=', '>=', 'AND', 'OR', 'XOR', 'EQV', 'IMP']
+_UCOMBOS = [(op, ta, tb) for op in UNIT_OPS for ta in '%&!#' for tb in '%&!#'] + \
+           [(op, '$', '$') for op in ('+', '=', '<>', '<', '>', '<=', '>=')] + [('neg', t, None) for t in '%&!#'] + \
+           [('NOT', t, None) for t in '%&!#']
+UNIT_PER = 14
+
+
+def n_unit_programs():
+    return (len(_UCOMBOS) + UNIT_PER - 1) // UNIT_PER
+
+
+def build_unit(k, vseed):
+    r = random.Random(vseed * 7919 + k)
+    combos = _UCOMBOS[k * UNIT_PER:(k + 1) * UNIT_PER]
+    lines = []
+    plist = []
+
+    def lit(t, v):
+        if t == '$':
+            return f'"{v}"'
+        if t in '%&':
+            return str(v) if v >= 0 else f'-{-v}'
+        return (repr(float(v)) + ('#' if t == '#' else '!')).replace('-', '-')
+    n = [0]
+
+    def var(t, v):
+        n[0] += 1
+        nm = f'zu{n[0]}{t}'
+        lines.append(f'{nm} = {lit(t, v)}')
+        return nm
+    stmts = []
+    for op, ta, tb in combos:
+        if tb is None:
+            pool = UNIT_SMALL if op == 'neg' else UNIT_POOL
+            vs = [x for x in pool[ta] if not (op == 'NOT' and abs(x) > 2e9)]
+            a_ = var(ta, r.choice(vs))
+            stmts.append((f'-{a_}' if op == 'neg' else f'NOT {a_}'))
+            continue
+        if op in ('+', '-', '*'):
+            pa, pb = (UNIT_SMALL, UNIT_SMALL) if ta != '$' else (UNIT_POOL, UNIT_POOL)
+        elif op in ('/', '\\', 'MOD'):
+            pa, pb = UNIT_POOL, UNIT_DIV
+        else:
+            pa, pb = UNIT_POOL, UNIT_POOL
+        a_ = var(ta, r.choice(pa[ta]))
+        b_ = var(tb, r.choice(pb[tb]))
+        stmts.append(f'{a_} {op} {b_}')
+    for e in stmts:
+        lines.append(f'PRINT {e}')
+        plist.append({'line': len(lines), 'expr': e, 'type': None, 'where': 'unit'})
+    text = '\n'.join(lines) + '\n'
+    return text, plist, {'arrays': [], 'records': [], 'scalars': []}
+
+
 BUILTIN_PROBES = ['LEN("abc")', 'ABS(-3)', 'LEFT$("hello", 2)', 'INT(2.5)', 'STR$(5)', 'VAL("7")', 'UCASE$("a")', 'CHR$(65)',
                   '2 ^ 0.5', '2 ^ 3', '10 MOD 3', '7 \\ 2', '-7 \\ 2', 'NOT 0', '1 / 3', '1.5 < 1.6', '"a" < "b"', '"a" + "b"',
                   '1 / 0', '1 \\ 0', '32767 + 1', '2000000000 + 2000000000', '1E+38 * 1E+38', 'RND', 'TIMER', 'INKEY$', 'ERR']
@@ -495,6 +556,9 @@ def gen_cases(tier, seed):
             cs.append({'scenario': i, 'k': O, 'seed': seed * 31 + i * 3 + O, 'sweep': True})
     for i in range(10 if tier == 'quick' else 200):
         cs.append({'seed': seed * 100003 + i, 'k': i, 'sweep': True})
+    for rep in range(2 if tier == 'quick' else 20):
+        for u in range(n_unit_programs()):
+            cs.append({'unit': u, 'vseed': seed * 101 + rep, 'k': u + rep, 'seed': u})
     return cs
 
 
@@ -503,7 +567,11 @@ def run_case(case):
           'builtin_probes': 0, 'after_finish_probes': 0}
     viol = []
     shapes = []
-    text, plist, names = build(case['seed']) if case.get('scenario') is None else build_scenario(case['scenario'])
+    if case.get('unit') is not None:
+        text, plist, names = build_unit(case['unit'], case['vseed'])
+        st['unit_programs'] = 1
+    else:
+        text, plist, names = build(case['seed']) if case.get('scenario') is None else build_scenario(case['scenario'])
     if case.get('sweep'):
         run_sweep(case, text, st, viol)
         return {'viol': viol, 'stats': st, 'shape': [f"sweep|{shape_of(text)}|{case['k'] % 3}"], 'nontrivial': st.get('sweep_probes', 0) > 0,
